@@ -1,7 +1,8 @@
 (* C20 — input files are read and placed on the detector faithfully.
    Only statements here; proofs live in Proofs/Placement*.v.  Gen_C20 is regenerated on every run from
    pyxel/util/image.py (Alignment, _set_relative_position, the decorator and parameter list of
-   load_cropped_and_aligned_image) and pyxel/inputs/loader.py (the separators load_image tries). *)
+   load_cropped_and_aligned_image), pyxel/inputs/loader.py (the separators load_image tries), everything in these
+   files that could keep state between two calls, and the call sites of the two loading models. *)
 From Coq Require Import ZArith List Bool Lia ZifyBool String.
 From PyxelV Require Import Model.Placement Model.Memo Model.Delim.
 From PyxelV Require Import Proofs.Placement Proofs.PlacementMemo Proofs.PlacementDelim.
@@ -134,6 +135,21 @@ Proof.
   - intros p c [=].
 Qed.
 Print Assumptions C20_loads_place_current_content.
+
+(* the two loading models ask for exactly the detector's (rows, cols), their own file, position = (y, x) and align
+   parameters, accept smaller inputs, scale by time_step / time_scale (* multiplier for photons) and ADD the result
+   to their bucket — as their call sites say now *)
+Theorem C20_models_pass_arguments :
+  forall rows cols file pos align,
+    let want := {| q_shape := (rows, cols); q_file := file; q_px := snd pos; q_py := fst pos;
+                   q_align := align; q_allow := true |} in
+    model_request src_photon_call rows cols file pos align = want
+    /\ model_request src_charge_call rows cols file pos align = want
+    /\ (mc_file src_photon_call && mc_align src_photon_call && mc_adds src_photon_call
+        && mc_file src_charge_call && mc_align src_charge_call && mc_adds src_charge_call = true)
+    /\ mc_factor src_photon_call = (1, -1, 1) /\ mc_factor src_charge_call = (1, -1, 0).
+Proof. intros rows cols file [py px] align. repeat split; reflexivity. Qed.
+Print Assumptions C20_models_pass_arguments.
 
 Definition stale_witness : list event :=
   let q := {| q_shape := (1, 1); q_file := "f.npy"%string; q_px := 0; q_py := 0;
